@@ -18,6 +18,7 @@ import (
 	"sync"
 	"sync/atomic"
 	"testing"
+	"time"
 
 	"github.com/semihalev/twig"
 	"pgregory.net/rapid"
@@ -417,4 +418,217 @@ func TestC02AttrCache(t *testing.T) {
 			r.FailEnum(t, "C20.conc", c, err)
 		}
 	}
+}
+
+// ---- many renders in flight inside nested includes ---------------------------------------------------
+
+type C02DeepCase struct {
+	Goroutines int `json:"goroutines"`
+	Depth      int `json:"depth"`
+	Rounds     int `json:"rounds"`
+}
+
+// checkC02Deep: G goroutines render a chain of Depth nested includes at the same time, through a
+// writer that yields on every write, so that many renders are inside their innermost include at
+// once. Anything the engine counts per render (nesting depth, recursion guards) must be per render.
+func checkC02Deep(c C02DeepCase) error {
+	tm := map[string]string{}
+	for i := 0; i < c.Depth; i++ {
+		tm[fmt.Sprintf("deep%d", i)] = fmt.Sprintf("D%d{{ v }}[{%% include 'deep%d' %%}]", i, i+1)
+	}
+	tm[fmt.Sprintf("deep%d", c.Depth)] = "leaf{{ v }}{% for i in [1,2,3] %}.{{ i }}{% endfor %}"
+	e := newEngine(tm)
+	want := func(v int) string {
+		r := renderTo(e, "deep0", map[string]interface{}{"v": v})
+		return r.Out
+	}
+	wants := make([]string, c.Goroutines)
+	for g := range wants {
+		wants[g] = want(g)
+		if !strings.Contains(wants[g], fmt.Sprintf("leaf%d.1.2.3", g)) {
+			return fmt.Errorf("harness: serial render gives %s", q(wants[g]))
+		}
+	}
+	var wg sync.WaitGroup
+	errs := make(chan error, c.Goroutines)
+	start := make(chan struct{})
+	for g := 0; g < c.Goroutines; g++ {
+		wg.Add(1)
+		go func(g int) {
+			defer wg.Done()
+			<-start
+			for i := 0; i < c.Rounds; i++ {
+				r := guard(func() (string, error) {
+					w := &yieldWriter{}
+					err := e.RenderTo(w, "deep0", map[string]interface{}{"v": g})
+					return string(w.b), err
+				})
+				if r.Failed() || r.Out != wants[g] {
+					errs <- fmt.Errorf("goroutine %d, render %d of a %d-deep include chain with %d goroutines at work: %v; run alone it gives %s", g, i, c.Depth, c.Goroutines, r, q(wants[g]))
+					return
+				}
+			}
+		}(g)
+	}
+	close(start)
+	done := make(chan struct{})
+	go func() { wg.Wait(); close(done) }()
+	select {
+	case <-done:
+	case <-time.After(120 * time.Second):
+		return fmt.Errorf("concurrent renders of nested includes do not terminate (120 s)")
+	}
+	close(errs)
+	for err := range errs {
+		return err
+	}
+	return nil
+}
+
+func TestC02Deep(t *testing.T) {
+	r := NewRec(t, "C02", "16 / 48 / 96 goroutines render a chain of 12 / 30 nested includes 20 (thorough 100) times each through a writer that yields on every write; oracle: the serial output of the same call; under the race detector and a watchdog; all cases non-trivial")
+	defer r.Flush()
+	for _, g := range []int{16, 48, 96} {
+		for _, d := range []int{12, 30} {
+			c := C02DeepCase{Goroutines: g, Depth: d, Rounds: scale(20, 100)}
+			r.Case(fmt.Sprint(c), true, c)
+			r.Case(fmt.Sprint(c, "b"), true, c)
+			if err := checkC02Deep(c); err != nil {
+				r.FailEnum(t, "C02.deep", c, err)
+			}
+		}
+	}
+}
+
+// ---- a source that changes between two waves of concurrent calls -------------------------------------
+
+type C02ReloadCase struct {
+	Goroutines int  `json:"goroutines"`
+	Waves      int  `json:"waves"`
+	Files      bool `json:"files"` // FileSystemLoader instead of a timestamp-aware in-memory loader
+}
+
+type c02TSLoader struct {
+	mu   sync.Mutex
+	src  map[string]string
+	ts   map[string]int64
+	slow bool
+}
+
+func (l *c02TSLoader) Load(name string) (string, error) {
+	l.mu.Lock()
+	s, ok := l.src[name]
+	l.mu.Unlock()
+	if l.slow {
+		// a loader that takes a while (network file system): calls overlap while one of them reloads
+		time.Sleep(2 * time.Millisecond)
+	}
+	if !ok {
+		return "", fmt.Errorf("%w: %s", twig.ErrTemplateNotFound, name)
+	}
+	return s, nil
+}
+func (l *c02TSLoader) Exists(name string) bool {
+	l.mu.Lock()
+	defer l.mu.Unlock()
+	_, ok := l.src[name]
+	return ok
+}
+func (l *c02TSLoader) GetModifiedTime(name string) (int64, error) {
+	l.mu.Lock()
+	defer l.mu.Unlock()
+	if t, ok := l.ts[name]; ok {
+		return t, nil
+	}
+	return 0, fmt.Errorf("%w: %s", twig.ErrTemplateNotFound, name)
+}
+
+// checkC02Reload: with auto-reload on, the source changes while no call is in flight; every call of
+// the next wave starts after the change, so whatever the order in which they run, each returns the
+// new version.
+func checkC02Reload(c C02ReloadCase) error {
+	e := twig.New()
+	e.SetAutoReload(true)
+	var write func(version int) error
+	if c.Files {
+		root, err := os.MkdirTemp(workDir(), "c02reload-")
+		if err != nil {
+			return fmt.Errorf("harness: %v", err)
+		}
+		defer os.RemoveAll(root)
+		e.RegisterLoader(twig.NewFileSystemLoader([]string{root}))
+		write = func(version int) error {
+			for _, n := range []string{"page", "part"} {
+				p := filepath.Join(root, n+".twig")
+				src := fmt.Sprintf("%s-v%d{{ v }}", n, version)
+				if n == "page" {
+					src += "{% include 'part' %}"
+				}
+				if err := os.WriteFile(p, []byte(src), 0o644); err != nil {
+					return err
+				}
+				ts := time.Unix(1700000000+int64(version)*10, 0)
+				os.Chtimes(p, ts, ts)
+			}
+			return nil
+		}
+	} else {
+		l := &c02TSLoader{src: map[string]string{}, ts: map[string]int64{}, slow: true}
+		e.RegisterLoader(l)
+		write = func(version int) error {
+			l.mu.Lock()
+			defer l.mu.Unlock()
+			l.src["page"] = fmt.Sprintf("page-v%d{{ v }}{%% include 'part' %%}", version)
+			l.src["part"] = fmt.Sprintf("part-v%d{{ v }}", version)
+			l.ts["page"], l.ts["part"] = int64(1000+version*10), int64(1000+version*10)
+			return nil
+		}
+	}
+	for wave := 1; wave <= c.Waves; wave++ {
+		if err := write(wave); err != nil {
+			return fmt.Errorf("harness: %v", err)
+		}
+		var wg sync.WaitGroup
+		errs := make(chan error, c.Goroutines)
+		start := make(chan struct{})
+		for g := 0; g < c.Goroutines; g++ {
+			wg.Add(1)
+			go func(g int) {
+				defer wg.Done()
+				<-start
+				want := fmt.Sprintf("page-v%d%dpart-v%d%d", wave, g, wave, g)
+				r := render(e, "page", map[string]interface{}{"v": g})
+				if r.Failed() || r.Out != want {
+					errs <- fmt.Errorf("wave %d (all %d calls start after version %d was written): goroutine %d got %v, want %s", wave, c.Goroutines, wave, g, r, q(want))
+				}
+			}(g)
+		}
+		close(start)
+		wg.Wait()
+		close(errs)
+		for err := range errs {
+			return err
+		}
+	}
+	return nil
+}
+
+func TestC02Reload(t *testing.T) {
+	r := NewRec(t, "C02", "auto-reload on; 12 (thorough 60) waves of 8 / 32 concurrent Render calls on one name with an include, the sources rewritten (newer timestamp) between the waves while nothing is in flight; timestamp-aware in-memory loader that takes 2 ms per read, and FileSystemLoader; oracle: every call of a wave returns the version written before the wave; under the race detector; all cases non-trivial")
+	defer r.Flush()
+	for _, files := range []bool{false, true} {
+		for _, g := range []int{8, 32} {
+			c := C02ReloadCase{Goroutines: g, Waves: scale(12, 60), Files: files}
+			r.Case(fmt.Sprint(c), true, c)
+			r.Case(fmt.Sprint(c, "b"), true, c)
+			if err := checkC02Reload(c); err != nil {
+				r.FailEnum(t, "C02.reload", c, err)
+			}
+		}
+	}
+}
+
+func init() {
+	reg("C02.deep", checkC02Deep)
+	reg("C02.reload", checkC02Reload)
 }
